@@ -77,12 +77,28 @@ def fuzz_stage(ctx, quick, pool):
             # an honest handshake that fails is not a C08 matter, but the flavour then gives no mutation points
             ctx.notes.append('honest flavour %s ends with %s %s' % (name, b['outcome'], b['problems']))
         ctx.count('honest-flavours', 1, [name])
-    n = 800 if quick else 24000
+    n = 800 if quick else 16000
     cases = c08_fuzz.gen_cases(ctx.rng, n)
     cases += c08_fuzz.bomb_cases(ctx.rng, [8] if quick else [8, 64, 200])
     for i, c in enumerate(cases):
         c08_fuzz.resolve_target(c, profiles)
         c.setdefault('mem', i % 6 == 0)
+    # corpus first: one concrete case per past finding (independent of the seed)
+    corpus = []
+    try:
+        with open(os.path.join(vlib.ROOT, 'corpus', 'C08', 'cases.json')) as f:
+            for e in json.load(f):
+                c = dict(e['case'])
+                if c.get('mut') is not None:
+                    c['mut'] = tuple(c['mut'])
+                if c['flavour'] < len(fl):
+                    b = profiles[(c['flavour'], c['role'])][0]
+                    c['base'] = dict(calls=b.get('calls', 0), peak=b.get('peak', 0))
+                    c['corpus'] = e['key']
+                    corpus.append(c)
+    except OSError:
+        pass
+    cases = corpus + cases
     t0 = time.time()
     results = pool.map(c08_fuzz.worker, cases, chunksize=4)
     ctx.log('fuzz: %d cases in %.1fs' % (len(cases), time.time() - t0))
@@ -149,9 +165,29 @@ def crash_key(exc):
 
 
 def witness_stage(ctx):
-    """Replay the refutation witnesses on the live server: each must crash as the model says."""
+    """Replay the refutation witnesses on the live server: each must crash as the model says.
+    Also replays corpus/C08/hellos.json (ClientHellos that crashed the server OUTSIDE the translated
+    region in earlier runs)."""
     tie = None
     found = False
+    try:
+        with open(os.path.join(vlib.ROOT, 'corpus', 'C08', 'hellos.json')) as f:
+            hellos = json.load(f)
+    except OSError:
+        hellos = []
+    for h in hellos:
+        ch = bytes.fromhex(h['client_hello_handshake_message_hex'])
+        vers = h.get('settings_versions')
+        st = loop.settings(minVersion=tuple(vers[0]), maxVersion=tuple(vers[1])) if vers else loop.settings()
+        exc = c08_hello.run_server_exc(ch, st)
+        ctx.count('hello-corpus-replay', 1, [h['key']])
+        if exc is not None and loop.classify(('exc', exc))[0] == 'Other':
+            key, fn, line = crash_key(exc)
+            found = True
+            ctx.violation(key, 'handshakeServer raises %s: %s (in %s: `%s`) for a syntactically valid ClientHello (corpus)'
+                          % (type(exc).__name__, str(exc)[:120], fn, line),
+                          {'client_hello_handshake_message_hex': ch.hex(), 'settings_versions': vers,
+                           'how': './check C08 --replay <this file>'})
     for site, kind, ch in witness_hellos():
         exc = c08_hello.run_server_exc(ch, loop.settings())
         ctx.count('witness-replay', 1, [site])
@@ -271,7 +307,7 @@ def run(ctx):
                 continue
             seen.add(key)
             ctx.violation(key, 'handshakeClientCert: %s for a syntactically valid ServerHello (%s)' % (text, label),
-                          {'server_hello_handshake_message_hex': hexbytes,
+                          {'server_hello_handshake_message_hex': hexbytes, 'sh_case_seed': vers,
                            'how': 'start handshakeClientCert, answer its ClientHello with this ServerHello handshake message'})
     wtie, wfound = witness_stage(ctx)
     found |= wfound
@@ -298,10 +334,10 @@ def run(ctx):
         t0 = time.time()
         n_before = len(ctx.violations) + len(ctx.known_hits)
         try:
-            wt = c08_fuzz.with_watchdog(c08_work.run_stage, ctx, quick, _seconds=900 if quick else 7200)
+            wt = c08_fuzz.with_watchdog(c08_work.run_stage, ctx, quick, _seconds=400 if quick else 7200)
         except c08_fuzz.HangTimeout as e:
             sys.settrace(None)
-            fn, line = c08_fuzz.innermost_tlslite_frame(e)
+            fn, line = c08_fuzz.hang_frame(e)
             wt = None
             ctx.violation('hang:%s:%s' % (fn, c08_fuzz._norm(line)),
                           'parser work stage: a parse call does not return (spinning in %s: `%s`)' % (fn, line),
@@ -333,6 +369,10 @@ def replay(ctx, path):
         exc = c08_hello.run_server_exc(ch, st)
         print('handshakeServer outcome:', repr(exc))
         return 1 if exc is not None and loop.classify(('exc', exc))[0] == 'Other' else 0
+    if 'sh_case_seed' in r:
+        o = c08_hello.sh_case(r['sh_case_seed'])
+        print('handshakeClientCert outcome:', o.get('cls'), o.get('crash'))
+        return 1 if o.get('crash') else 0
     if 'case' in r:
         def unconv(v):
             if isinstance(v, dict) and set(v) == {'hex'}:
